@@ -378,6 +378,6 @@ RefuseOnlyWhen == IsOpen => (CRes = "ValueError" => XCloseMayRefuse(Exempt))
 ShapeOK      == (IsOpen /\ reform /\ CRes = "ok" /\ ~EmptyWrite) =>
                    /\ HasShape(mode, COut)
                    /\ cknown => Squeeze(COut) = Shape(mode, FC(ann))
-KhidTight    == (IsOpen /\ Writable /\ khid /\ ~reform /\ DefectHiddenSep /\ ~SortDropsComments) => CRes = "ValueError"
+KhidTight    == (IsOpen /\ Writable /\ khid /\ cknown /\ ~reform /\ DefectHiddenSep /\ ~SortDropsComments) => CRes = "ValueError"
 ValuesWellFormed == IsOpen => \A i \in 1..Len(vals) : vals[i] # <<>> /\ IsWord(vals[i][1]) /\ IsWord(Tl(vals[i]))
 =============================================================================
